@@ -1095,7 +1095,8 @@ impl Server {
                             transactions::handle_unwatch(conn, &self.storage)
                         }).unwrap_or_else(|| Ok(RespFrame::error("ERR connection not found")));
                     }
-                    "PUBLISH" => return self.handle_publish(parts),
+                    // Inside MULTI a PUBLISH is queued like any other command and delivered by EXEC
+                    "PUBLISH" if !in_transaction => return self.handle_publish(parts),
                     "SUBSCRIBE" => return self.handle_subscribe(parts, conn_id),
                     "UNSUBSCRIBE" => return self.handle_unsubscribe(parts, conn_id),
                     "PSUBSCRIBE" => return self.handle_psubscribe(parts, conn_id),
@@ -1232,7 +1233,23 @@ impl Server {
         
         // Execute commands
         let mut results = Vec::new();
+        let mut db_index = db_index;
         for cmd_parts in commands_to_execute.iter() {
+            // A queued SELECT switches the database of this connection: for the remaining queued
+            // commands and for the connection afterwards
+            let is_select = matches!(cmd_parts.first(),
+                Some(RespFrame::BulkString(Some(name))) if name.eq_ignore_ascii_case(b"SELECT"));
+            if is_select {
+                match self.handle_select(cmd_parts, conn_id) {
+                    Ok(response) => results.push(response),
+                    Err(e) => results.push(RespFrame::error(e.to_string())),
+                }
+                if let Some(selected) = self.connections.with_connection(conn_id, |conn| conn.db_index) {
+                    db_index = selected;
+                }
+                continue;
+            }
+            
             match self.process_command_parts(&cmd_parts, db_index) {
                 Ok(response) => results.push(response),
                 Err(e) => {
@@ -1282,6 +1299,7 @@ impl Server {
         let result = match command_name.as_str() {
             "PING" => self.handle_ping(parts),
             "ECHO" => self.handle_echo(parts),
+            "PUBLISH" => self.handle_publish(parts),
             "SET" => self.handle_set(parts, db),
             "GET" => self.handle_get(parts, db),
             "INCR" => self.handle_incr(parts, db),
